@@ -34,6 +34,17 @@ def run(tier, seed):
         sc["aux_corruptions"] = rec.get("auxcorruptions", [])
         sc["lde_cheats"] = rec.get("ldecheats", [])
         scs.append(sc)
+    # constant columns (trace mode "copy": next = cur): every sequence assertion then asserts the same value at each of its steps, and
+    # with three or more exemptions its last steps are constrained by nothing else; same corrupted cells, same rule
+    consts = []
+    for sc in scs:
+        t = sc["stmt"]
+        if t["nasserts"] >= 4 and t["k"] >= 3 and not t.get("auxd") and not t.get("lag") and len(consts) < (40 if tier == "quick" else 400):
+            c = json.loads(json.dumps(sc))
+            c["shape"]["mode"] = "copy"
+            c["id"] = len(scs) + len(consts)
+            consts.append(c)
+    scs = scs + consts
     obs = c01.run_scenarios(exe_rel, "sound", scs, wd, "sound_rel", timeout=3400)
     n_cells = n_viol = n_free = n_pert = skipped = n_lde = 0
     for sc, o in zip(scs, obs):
